@@ -24,6 +24,7 @@ def ref_sart(W, b, x0, maxit, relax, tol, L=None, beta=0.0):
     bb = b_ @ b_
     conv = []
     margin = np.inf
+    mag = float(np.abs(x).max(initial=0.0))       # magnitude of the terms the iterates are built from (rounding-error scale)
     for k in range(max(int(maxit), 0)):
         yhat = W_ @ x
         ratio = np.zeros_like(lens)
@@ -32,9 +33,15 @@ def ref_sart(W, b, x0, maxit, relax, tol, L=None, beta=0.0):
         upd = np.zeros_like(x)
         pos = dens > 0
         upd[pos] = ld(relax) / dens[pos] * (W_.T @ ratio)[pos]
+        aupd = np.zeros_like(x)
+        aratio = np.zeros_like(lens)
+        aratio[nz] = (np.abs(b_[nz]) + np.abs(W_) [nz] @ np.abs(x)) / np.abs(lens[nz])
+        aupd[pos] = abs(ld(relax)) / dens[pos] * (np.abs(W_).T @ aratio)[pos]
         xn = x + upd
         if L is not None:
             xn = xn - ld(beta) * (L.astype(ld) @ x)
+            aupd = aupd + abs(ld(beta)) * (np.abs(L.astype(ld)) @ np.abs(x))
+        mag = max(mag, float((np.abs(x) + aupd).max(initial=0.0)))
         x = np.where(xn < 0, ld(0), xn)
         y = W_ @ x
         conv.append((bb - y @ y) / bb)
@@ -43,7 +50,7 @@ def ref_sart(W, b, x0, maxit, relax, tol, L=None, beta=0.0):
             margin = min(margin, abs(float(d) - tol))
             if d < tol:
                 break
-    return x.astype(float), [float(c) for c in conv], margin
+    return x.astype(float), [float(c) for c in conv], margin, mag
 
 
 def initial_array(g, n):
@@ -76,26 +83,40 @@ def check_sart_case(case, out):
     if case["maxit"] >= 1 and not np.any(b):
         out["f"].append(dict(base, claim="no error for an all-zero measurement (convergence value undefined)"))
         return
-    rx, rcs, margin = ref_sart(W, b, x0, case["maxit"], case["relax"], case["tol"], case.get("L"), case.get("beta", 0.0))
+    rx, rcs, margin, mag = ref_sart(W, b, x0, len(cs), case["relax"], -1.0, case.get("L"), case.get("beta", 0.0))
     mi = max(case["maxit"], 0)
     if not (min(2, mi) <= len(cs) <= mi):
         out["f"].append(dict(base, claim="number of sweeps outside [min(2, max_iterations), max_iterations]", sweeps=len(cs)))
         return
-    if len(cs) != len(rcs):
-        if margin > 1e-9:
-            out["f"].append(dict(base, claim="stops after a different number of sweeps than the documented stopping rule",
-                                 got=len(cs), want=len(rcs), margin=margin))
+    # the documented stopping rule replayed EXACTLY on the implementation's own convergence values (same double
+    # arithmetic: abs(c_k - c_(k-1)) < conv_tol, first at k = 1): it must have stopped at the first such k and nowhere else
+    tol = case["tol"]
+    first = next((k for k in range(1, len(cs)) if abs(cs[k] - cs[k - 1]) < tol), None)
+    if first is not None and first != len(cs) - 1:
+        out["f"].append(dict(base, claim="did not stop at the first sweep k >= 1 with |c_k - c_(k-1)| < conv_tol",
+                             first_k=first, sweeps=len(cs), convs=cs))
         return
-    scale = max(1e-300, np.abs(rx).max(initial=0.0), np.abs(x0).max(initial=0.0))
+    if first is None and len(cs) < mi:
+        out["f"].append(dict(base, claim="stopped before max_iterations although no |c_k - c_(k-1)| < conv_tol occurred",
+                             sweeps=len(cs), convs=cs))
+        return
+    # the iterate against the documented rule (long double re-statement run for the same number of sweeps); tolerance
+    # relative to the magnitude of the terms the iterates are built from
+    scale = max(1e-300, np.abs(rx).max(initial=0.0), np.abs(x0).max(initial=0.0), mag)
     if np.abs(x - rx).max(initial=0.0) > 1e-9 * scale:
         j = int(np.argmax(np.abs(x - rx)))
         out["f"].append(dict(base, claim="returned solution differs from the iterate of the documented update rule",
                              cell=j, got=float(x[j]), want=float(rx[j]), sweeps=len(cs)))
         return
-    for k, (c, rc) in enumerate(zip(cs, rcs)):
-        if abs(c - rc) > 1e-9 * (1 + abs(rc)):
+    # every convergence value against its definition evaluated at the implementation's own iterate of that sweep
+    ld = np.longdouble
+    bb = b.astype(ld) @ b.astype(ld)
+    for k, xk in enumerate(impl.get("xs") or []):
+        y = W.astype(ld) @ np.asarray(xk, dtype=ld)
+        own = float((bb - y @ y) / bb)
+        if abs(cs[k] - own) > 1e-9 * (2 + abs(own)):
             out["f"].append(dict(base, claim="convergence value differs from (|b|^2 - |W x|^2) / |b|^2 of the iterate",
-                                 sweep=k, got=c, want=rc))
+                                 sweep=k, got=cs[k], want=own))
             return
     if len(cs) >= 1 and np.any(x < 0):
         out["f"].append(dict(base, claim="negative component in the solution after at least one sweep", got=x.tolist()))
@@ -130,7 +151,7 @@ def check_lsq_case(case, rng, out):
     base = {"kind": kind, "W": W.tolist(), "b": b.tolist(), "alpha": alpha, "tikhonov_matrix": None if L is None else L.tolist(),
             "passed_as": case.get("forms")}
     out["n"] += 1
-    vmax_zero = not (max(b.max(), 0.0) != 0)
+    vmax_zero = not (b.max(initial=0.0) != 0)
     if impl["status"] != "ok":
         if not (kind == "nnls" and vmax_zero):
             out["f"].append(dict(base, claim="raised %s although max(b) > 0" % impl["status"], message=impl.get("message")))
@@ -190,10 +211,60 @@ def check_lsq_case(case, rng, out):
                                  residuals=res, objective=F, x=x.tolist()))
 
 
+def plain_sart(inv, case, W, b, g):
+    with warnings.catch_warnings():
+        warnings.simplefilter("ignore")
+        if case["kind"] == "sart":
+            x, cs = inv.invert_sart(W, b, initial_guess=g, max_iterations=case["maxit"], relaxation=case["relax"],
+                                    conv_tol=case["tol"])
+        else:
+            x, cs = inv.invert_constrained_sart(W, case["L"].copy(), b, initial_guess=g, max_iterations=case["maxit"],
+                                                relaxation=case["relax"], beta_laplace=case["beta"], conv_tol=case["tol"])
+    return np.array(x, dtype=float), [float(c) for c in cs]
+
+
+def check_sart_covariance(inv, case, rng, out):
+    """SCALE: W and b multiplied by the same power of two leave solution and convergence values unchanged (exactly, a
+    power of two commutes with rounding).  ORDER: the observations in another order give the same solution (up to the
+    rounding of a sum taken in another order)."""
+    impl = case.get("impl")
+    if not impl or impl["status"] != "ok" or not impl["convs"] or case["m"] == 0 or case["n"] == 0:
+        return
+    W, b = case["W"], case["b"]
+    x0 = initial_array(case["guess"], case["n"])
+    x, cs = np.array(impl["x"]), impl["convs"]
+    top = max(np.abs(W).max(), np.abs(b).max(), np.abs(x0).max(), 1e-300)
+    low = min([v for v in (np.abs(W[W != 0]).min(initial=np.inf), np.abs(b[b != 0]).min(initial=np.inf)) if np.isfinite(v)] + [1.0])
+    base = {"kind": case["kind"], "W": W.tolist(), "b": b.tolist(), "guess": x0.tolist(), "relaxation": case["relax"],
+            "conv_tol": case["tol"], "max_iterations": case["maxit"]}
+    if case["kind"] == "csart":
+        base.update({"laplacian": case["L"].tolist(), "beta_laplace": case["beta"]})
+    out["n"] += 1
+    k = rng.randint(-100, 100)
+    if top * 2.0 ** k < 1e120 and low * 2.0 ** k > 1e-120:
+        sx, scs = plain_sart(inv, case, W * 2.0 ** k, b * 2.0 ** k, x0.copy())
+        sc = max(np.abs(x).max(initial=0.0), np.abs(x0).max(initial=0.0), 1e-300)
+        if len(scs) != len(cs) or np.abs(sx - x).max(initial=0.0) > 1e-12 * sc or any(
+                abs(a - c) > 1e-12 * (2 + abs(c)) for a, c in zip(scs, cs)):
+            out["f"].append(dict(base, claim="not scale covariant: W and b multiplied by 2^k give a different solution / convergence list",
+                                 k=k, got=sx.tolist(), want=x.tolist(), got_convs=scs, want_convs=cs))
+            return
+    perm = list(range(case["m"]))
+    rng.shuffle(perm)
+    px, pcs = plain_sart(inv, case, W[perm, :].copy(), b[perm].copy(), x0.copy())
+    _, _, _, mag = ref_sart(W, b, x0, len(cs), case["relax"], -1.0, case.get("L"), case.get("beta", 0.0))
+    sc = max(np.abs(x).max(initial=0.0), np.abs(x0).max(initial=0.0), mag, 1e-300)
+    if len(pcs) == len(cs) and np.abs(px - x).max(initial=0.0) > 1e-9 * sc:
+        out["f"].append(dict(base, claim="the solution depends on the order of the observations", permutation=perm,
+                             got=px.tolist(), want=x.tolist()))
+
+
 def search(inv, nnls_mod, lstsq_mod, svd_mod, sart_cases, lsq_cases, rng, quick, seeds=()):
     out = {"n": 0, "f": []}
     for case in sart_cases:
         check_sart_case(case, out)
+        if not case.get("derived") and rng.random() < 0.4:
+            check_sart_covariance(inv, case, rng, out)
     for case in lsq_cases:
         check_lsq_case(case, rng, out)
     return {"n_checked": out["n"], "failures": out["f"]}
